@@ -36,6 +36,7 @@ DECIDED = [
     "WALK-3 every v1.0 value element is handed to _handle_value, which inspects every child element (no exit before or inside the scan)",
     "VAL-3 the list brackets are added exactly when a second value text was joined with a comma (the flag is set where the comma is inserted, nowhere else)",
     "SRC-1 the converter opens its source read-only and writes only to the filename given to write_to_file, after rendering",
+    'PARSE-1 also: the parser of _parse_xml is built without encoding / recover',
 ]
 NOT_DECIDED = ["preservation of the Section tree, the values and the lifted attributes", "numeric suffixes of clashing names",
                "strict loadability of the output"]
